@@ -64,7 +64,7 @@ func (P *Program) pkgByName(name string) *types.Package {
 // []T, *T and (qualified) Go type names.
 func (P *Program) specType(t string) (string, types.Type) {
 	switch t {
-	case "int", "bool", "string", "bytes", "real", "ref", "iface", "slice", "error", "int64", "uint64", "int32", "uint32", "map", "ptr", "float64", "strset", "intset", "intarr", "strarr":
+	case "int", "bool", "string", "bytes", "real", "ref", "iface", "slice", "error", "int64", "uint64", "int32", "uint32", "map", "ptr", "float64", "strset", "intset", "intarr", "strarr", "trace":
 		return SpecSort(t), nil
 	case "[]byte":
 		return "Bytes", types.NewSlice(types.Typ[types.Byte])
